@@ -247,9 +247,10 @@ def decimals(ck, runner, tier):
     cases = []
     for _ in range(per):
         op = rng.pick(["+", "-", "*"])
-        lb, lp, ls = rng.pick(DEC_CONFIGS) if tier == "quick" or rng.chance(1, 2) else (rng.pick([64, 128]), 0, 0)
+        lb, lp, ls = rng.pick(DEC_CONFIGS) if tier == "quick" or rng.chance(1, 2) else (0, 0, 0)
         if lp == 0:
-            lp = 1 + rng.below(18 if lb == 64 else 38)
+            lp = 1 + rng.below(38)
+            lb = 64 if lp <= 18 else 128      # the engine picks Decimal64 for precision <= 18
             ls = rng.below(lp + 1)
         mixed = rng.chance(1, 4)
         if mixed:
